@@ -11,3 +11,26 @@ ASSUMPTIONS = ["theorems are about the Lean models of SOO, StoSOO, DOO; they are
                "object and cross-checked to 1e-9)",
                "score theorems hold for every linear order of scores and every formula record; IEEE rounding is not modelled"]
 TRUSTED = ["harness/algo_cases.py, harness/monitors.py, harness/common.py (instrumented partition subclasses, RNG patching)", "lean/PyXABModel/Drv (driver)"]
+
+# directed cases: depth caps the budget actually reaches (the sweep must stop at the cap), default delta of DOO on
+# partitions whose cells of one depth differ in width
+DIRECTED = [
+    ("StoSOO", {"params": {"n": 60, "h_max": 2, "k": 1}, "kind": "binary", "d": 1, "T": 40}),
+    ("StoSOO", {"params": {"n": 80, "h_max": 3, "k": 1}, "kind": "binary", "d": 1, "T": 60}),
+    ("StoSOO", {"params": {"n": 80, "h_max": 2, "k": 2, "delta": 0.1}, "kind": "kary", "K": 3, "d": 2, "T": 60}),
+    ("SOO", {"params": {"n": 100, "h_max": 3}, "kind": "binary", "d": 1, "T": 40}),
+    ("DOO", {"params": {"n": 100}, "kind": "binary", "d": 2, "T": 100, "rmode": "objective"}),
+    ("DOO", {"params": {"n": 100}, "kind": "randBinary", "d": 2, "T": 100, "rmode": "objective"}),
+]
+_explore = explore
+
+
+def explore(tier, seed, n):
+    import algo_prop, framework as fw
+    res = _explore(tier, seed, n)
+    directed = algo_prop.run_cases([(980000 + j + 100 * seed, 0, a, f) for j, (a, f) in enumerate(DIRECTED)], parallel=False)
+    mism, n_ops = fw.compare(directed)
+    res["cases"] = directed + res["cases"]
+    res["mism"] = mism + res["mism"]
+    res["n_ops"] += n_ops
+    return res
